@@ -164,21 +164,22 @@ mod c18 {
     pub fn replay(input: &Value) -> Result<(), String> {
         check(input["a"].as_str().unwrap_or(""), input["b"].as_str().unwrap_or(""), input["ignore_case"].as_bool().unwrap_or(false))
     }
-    /// BOUND: pairs of sentences of at most 4 words from {a, A, b, ab, U+0130, i+U+0307} (single ASCII spaces; also with the first
+    /// BOUND: pairs of sentences of at most 4 words from {a, A, b, ab, U+0130, i+U+0307, a Greek word ending in capital sigma and its lower-case spelling} (single ASCII spaces; also with the first
     /// separator replaced by U+00A0 in both texts / by U+2003 in the first) x ignore_case
     pub fn search_all() -> (Vec<(Value, String, String)>, usize) {
         let mut sents = vec![String::new()];
         let mut frontier = vec![String::new()];
         for _ in 0..4 {
             let mut next = vec![];
-            for s in &frontier { for w in ["a", "A", "b", "ab", "\u{130}", "i\u{307}"] { next.push(if s.is_empty() { w.to_string() } else { format!("{s} {w}") }); } }
+            for s in &frontier { for w in ["a", "A", "b", "ab", "\u{130}", "i\u{307}", "\u{39f}\u{394}\u{39f}\u{3a3}", "\u{3bf}\u{3b4}\u{3bf}\u{3c2}"] { next.push(if s.is_empty() { w.to_string() } else { format!("{s} {w}") }); } }
             sents.extend(next.iter().cloned());
             frontier = next;
         }
         let mut found: Vec<(Value, String, String)> = vec![];
         let mut cases = 0usize;
         for (i, a) in sents.iter().enumerate() { for (j, b) in sents.iter().enumerate() {
-            if (i * 31 + j) % 53 != 0 && (a.len() > 5 || b.len() > 5) { continue; }
+            let short = |x: &str| x.split(' ').count() <= 2;
+            if (i * 31 + j) % 1499 != 0 && !(short(a) && short(b)) { continue; }
             // the same pair with its first separators replaced by a non-ASCII whitespace (both texts, or only the first)
             let variants = [(a.clone(), b.clone()), (a.replacen(' ', "\u{a0}", 1), b.replacen(' ', "\u{a0}", 1)), (a.replacen(' ', "\u{2003}", 1), b.clone())];
             for (va, vb) in &variants { for ic in [false, true] {
@@ -236,10 +237,11 @@ mod c10 {
         }
         check_pair(input["from"].as_str().unwrap_or(""), input["to"].as_str().unwrap_or(""), g)
     }
-    /// BOUND: texts of at most 5 pieces from {a, b, space, U+00E4, e+U+0301, U+3000} (grapheme mode: unmixed clusters only); all clean
+    /// BOUND: texts of at most 5 pieces from {a, b, space, U+00E4, e+U+0301, U+3000} and of at most 4 from {a, CRLF, space, b} (grapheme mode: unmixed clusters only); all clean
     /// pairs with equal non-whitespace content; repair with every operation sequence of length |s| (|s| <= 4) and two wrong lengths
     pub fn search_all() -> (Vec<(Value, String, String)>, usize) {
-        let texts = all_texts(&["a", "b", " ", "\u{e4}", "e\u{301}", "\u{3000}"], 5);
+        let mut texts = all_texts(&["a", "b", " ", "\u{e4}", "e\u{301}", "\u{3000}"], 5);
+        texts.extend(all_texts(&["a", "\r\n", " ", "b"], 4));     // CRLF: one whitespace character in grapheme mode, two code points
         let mut found: Vec<(Value, String, String)> = vec![];
         let mut cases = 0usize;
         for g in [true, false] {
@@ -310,10 +312,13 @@ mod c11 {
     pub fn replay(input: &Value) -> Result<(), String> {
         check(input["text"].as_str().unwrap_or(""), input["graphemes"].as_bool().unwrap_or(true)).map_err(|e| e.1)
     }
-    /// BOUND: texts of at most 4 pieces from {a, b, space, tab, U+00A0, U+3000, U+200B, U+000B, CRLF, U+00E4, e+U+0301}; grapheme mode:
+    /// BOUND: texts of at most 4 pieces from {a, b, space, tab, U+00A0, U+3000, U+200B, U+000B, CRLF, U+00E4, e+U+0301} and from
+    /// {U+1F1E9, U+1F1EA, U+1100, U+1161, space, newline, a}; grapheme mode:
     /// texts without a cluster that mixes whitespace and non-whitespace code points
     pub fn search_all() -> (Vec<(Value, String, String)>, usize) {
-        let texts = all_texts(&["a", "b", " ", "\t", "\u{a0}", "\u{3000}", "\u{200b}", "\u{b}", "\r\n", "\u{e4}", "e\u{301}"], 4);
+        let mut texts = all_texts(&["a", "b", " ", "\t", "\u{a0}", "\u{3000}", "\u{200b}", "\u{b}", "\r\n", "\u{e4}", "e\u{301}"], 4);
+        // code points that combine ACROSS removed whitespace: regional indicators, conjoining jamo, ZWJ
+        texts.extend(all_texts(&["\u{1f1e9}", "\u{1f1ea}", "\u{1100}", "\u{1161}", " ", "\n", "a"], 4));
         let mut found: Vec<(Value, String, String)> = vec![];
         let mut cases = 0usize;
         for g in [true, false] { for t in &texts {
